@@ -7,10 +7,14 @@
 open Vutil
 open C10_util
 
-let admin = coq_of_string "ADMIN"
+let cur_admin = ref (coq_of_string "ADMIN")
+let admin_gen = ref 0
+let old_admin : String0.string option ref = ref None
+let reset_admin () = cur_admin := coq_of_string "ADMIN"; admin_gen := 0; old_admin := None
 
 type pop = PC of string * string | PR of string * string | PH of string | PW of string | PX | PBad
          | PCf of string * string | PRf of string * string | PRace of string | POvl of string * string * string
+         | PXA | PAge of string | PFrr of string
          | PW2 of pop * string   (* Cw / Rw: a create / revoke with <probe> authenticated inside its write transaction *)
 
 let parse_op (o : string) : pop * string list =
@@ -25,6 +29,9 @@ let parse_op (o : string) : pop * string list =
   | ["Cf"; c; n] | ["Cl"; c; n] -> PCf (c, n), [c; n]
   | ["Rf"; c; n] | ["Rl"; c; n] -> PRf (c, n), [c; n]
   | ["RACE"; n] -> PRace n, [n]
+  | ["XA"; _] -> PXA, []
+  | ["AGE"; n; _] -> PAge n, [n]
+  | [f; n] when Stdlib.String.length f > 3 && Stdlib.String.sub f 0 3 = "FRR" -> PFrr n, [n]
   | ["Cw"; c; n; q] -> PW2 (PC (c, n), q), [c; n; q]
   | ["Rw"; c; n; q] -> PW2 (PR (c, n), q), [c; n; q]
   | ["OVL"; h; n] -> POvl ("ovl", h, n), [h; n]
@@ -52,7 +59,8 @@ let rec resolve env n =
   if l > 1 && (n.[l - 1] = '^' || n.[l - 1] = '-') then
     (* near miss of the value of the base name: a different, never-issued value *)
     coq_of_string (string_of_coq (resolve env (Stdlib.String.sub n 0 (l - 1))) ^ Stdlib.String.make 1 n.[l - 1])
-  else if n = "adm" then admin
+  else if n = "adm" then !cur_admin
+  else if n = "oadm" then (match !old_admin with Some a -> a | None -> coq_of_string "?oadm")
   else if n = "emp" || n = "non" then coq_of_string ""   (* the empty bearer value / no Authorization header *)
   else match Stdlib.List.assoc_opt n env.bind with Some v -> v | None -> coq_of_string ("?" ^ n)
 let next_value env n =
@@ -73,6 +81,7 @@ let outcome_s (p : pop) (o : Tokens.outcome) =
   | PH _, Tokens.ORole r -> "h:" ^ role_s r
   | PW _, Tokens.OWs b -> if b then "w:ok" else "w:no"
   | PX, Tokens.ORestarted -> "x"
+  | PAge _, Tokens.ORestarted -> "age"
   | PCf _, Tokens.OFailed -> "c:fail"
   | PCf _, Tokens.ODenied -> "c:401"
   | PRf _, Tokens.OFailed -> "r:fail"
@@ -91,11 +100,12 @@ let coq_op env (p : pop) =
   | PCf (c, n) -> let v, _ = next_value env n in Some (Tokens.CreateFail (resolve env c, v)), None
   | PRf (c, n) -> Some (Tokens.RevokeFail (resolve env c, resolve env n)), None
   | PRace n -> Some (Tokens.Race (resolve env n)), None
-  | PBad | POvl _ | PW2 _ -> None, None
+  | PAge _ -> Some Tokens.Restart, None    (* the age of a token is not a criterion: nothing changes *)
+  | PBad | POvl _ | PW2 _ | PXA | PFrr _ -> None, None
 
 (* SLW:<first>:<second> is judged like OVL (the overlap is produced below the repository instead of above it).
    OVL:<held>:<probe> = authenticate <held> (HTTP), and while it is in flight authenticate <probe> on an ordinary
-   route, on an admin route (revocation of a never issued value) and on the websocket check.  In the model these
+   route, on an !cur_admin route (revocation of a never issued value) and on the websocket check.  In the model these
    are four operations; the answers are computed by [f] (outcome_of on the state, or spec_outcome on the history) *)
 let ovl_ops env h n =
   [Tokens.AuthHttp (resolve env h); Tokens.AuthHttp (resolve env n);
@@ -107,24 +117,48 @@ let ovl_s kind (outs : Tokens.outcome list) =
       (match c with Tokens.ORevoked -> "ok" | Tokens.ODenied -> "401" | _ -> "MODEL-BUG") (if w then "ok" else "no")
   | _ -> "MODEL-BUG"
 
+(* XA: the admin token is reconfigured (the table stays).  The history is re-read under the new configuration:
+   what was done with the old admin credential counts as done by the admin *)
+let change_admin () =
+  let old = !cur_admin in
+  incr admin_gen;
+  let nw = coq_of_string (Printf.sprintf "ADMIN-%d" !admin_gen) in
+  cur_admin := nw; old_admin := Some old; old, nw
+let rewrite_cred old nw (o : Tokens.op) =
+  let f c = if c = old then nw else c in
+  match o with
+  | Tokens.Create (c, t) -> Tokens.Create (f c, t)
+  | Tokens.Revoke (c, t) -> Tokens.Revoke (f c, t)
+  | Tokens.CreateFail (c, t) -> Tokens.CreateFail (f c, t)
+  | Tokens.RevokeFail (c, t) -> Tokens.RevokeFail (f c, t)
+  | o -> o
+(* FRR<n>:<name>: for the model the last fresh token is created and then revoked with an authenticate in flight *)
+let frr_ops env n = let v, k = next_value env n in [Tokens.Create (!cur_admin, v); Tokens.Race v], (n, v, k)
+let has_frr ops = Stdlib.List.exists (function PFrr _ -> true | _ -> false) ops
+
 let model input =
+  reset_admin ();
   let ops, names = parse input in
   let env = new_env () in
   let st = ref [] in
   let out = Stdlib.List.map (fun p ->
       let r = match p, coq_op env p with
+        | PXA, _ -> ignore (change_admin ()); "xa"
+        | PFrr n, _ ->
+          let os, (n, v, k) = frr_ops env n in
+          Stdlib.List.iter (fun o -> st := Tokens.step !cur_admin !st o) os; do_bind env n v k; "frr:ok"
         | POvl (kind, h, n), _ ->
-          ovl_s kind (Stdlib.List.map (fun o -> let oc = Tokens.outcome_of admin !st o in st := Tokens.step admin !st o; oc) (ovl_ops env h n))
+          ovl_s kind (Stdlib.List.map (fun o -> let oc = Tokens.outcome_of !cur_admin !st o in st := Tokens.step !cur_admin !st o; oc) (ovl_ops env h n))
         | PW2 (inner, q), _ ->
           (* the probe runs before the COMMIT: it is answered from the table as it was *)
           let probe = resolve env q in
           let skip = (match inner with PR (_, n) -> resolve env n = probe | _ -> false) in
           (match coq_op env inner with
            | Some o, b ->
-             let oc = Tokens.outcome_of admin !st o in
-             st := Tokens.step admin !st o;
+             let oc = Tokens.outcome_of !cur_admin !st o in
+             st := Tokens.step !cur_admin !st o;
              (* a token other than the one being written gets the same answer before and after the write *)
-             let r = Tokens.get_token admin !st probe in
+             let r = Tokens.get_token !cur_admin !st probe in
              (match oc, b with Tokens.OCreated, Some (n, v, k) -> do_bind env n v k | _ -> ());
              outcome_s inner oc ^ "+" ^ (match oc with
                  | Tokens.ODenied -> "-"
@@ -133,12 +167,13 @@ let model input =
            | None, _ -> "BAD-OP")
         | _, (None, _) -> "BAD-OP"
         | _, (Some o, b) ->
-          let oc = Tokens.outcome_of admin !st o in
-          st := Tokens.step admin !st o;
+          let oc = Tokens.outcome_of !cur_admin !st o in
+          st := Tokens.step !cur_admin !st o;
           (match oc, b with Tokens.OCreated, Some (n, v, k) -> do_bind env n v k | _ -> ());
           outcome_s p oc in
-      let vec = Stdlib.List.map (fun n -> n ^ "=" ^ role_s (Tokens.get_token admin !st (resolve env n))) names in
-      r ^ "/" ^ Stdlib.String.concat "," (vec @ ["adm=" ^ role_s (Tokens.get_token admin !st admin)])) ops in
+      let vec = Stdlib.List.map (fun n -> n ^ "=" ^ role_s (Tokens.get_token !cur_admin !st (resolve env n))) names in
+      let vec = if has_frr ops then vec @ ["raced*=N"] else vec in
+      r ^ "/" ^ Stdlib.String.concat "," (vec @ ["adm=" ^ role_s (Tokens.get_token !cur_admin !st !cur_admin)])) ops in
   Stdlib.String.concat " " out
 
 (* failure class from (wanted, got) answers of an authentication *)
@@ -154,6 +189,7 @@ exception Fail of string
 let got_opt_ok res = Stdlib.String.length res >= 4 && Stdlib.String.sub res 0 4 = "c:ok"
 
 let spec input obs =
+  reset_admin ();
   let ops, names = parse input in
   let results = words obs in
   if Stdlib.List.length results <> Stdlib.List.length ops then "FAIL malformed-observable result count"
@@ -164,16 +200,24 @@ let spec input obs =
       Stdlib.List.iteri (fun i (p, r) ->
           let res, vec = match split_on '/' r with [a; b] -> a, b | _ -> raise (Fail "malformed-observable no vector") in
           (match p, coq_op env p with
+           | PXA, _ ->
+             if res <> "xa" then raise (Fail (Printf.sprintf "outcome-mismatch op %d want xa got %s" i res));
+             let old, nw = change_admin () in
+             pre := Stdlib.List.map (rewrite_cred old nw) !pre
+           | PFrr n, _ ->
+             if res <> "frr:ok" then raise (Fail (Printf.sprintf "revoked-token-authenticates-after-race op %d got %s" i res));
+             let os, (n, v, k) = frr_ops env n in
+             pre := !pre @ os; do_bind env n v k
            | POvl (kind, h, n), _ ->
-             let want = ovl_s kind (Stdlib.List.map (fun o -> let oc = Tokens.spec_outcome admin !pre o in pre := !pre @ [o]; oc) (ovl_ops env h n)) in
+             let want = ovl_s kind (Stdlib.List.map (fun o -> let oc = Tokens.spec_outcome !cur_admin !pre o in pre := !pre @ [o]; oc) (ovl_ops env h n)) in
              if res <> want then raise (Fail (Printf.sprintf "overlap-interference op %d want %s got %s" i want res))
            | PW2 (inner, q), _ ->
              let probe = resolve env q in
              let skip = (match inner with PR (_, n) -> resolve env n = probe | _ -> false) in
-             let r = Tokens.spec_role admin !pre probe in
+             let r = Tokens.spec_role !cur_admin !pre probe in
              (match coq_op env inner with
               | Some o, b ->
-                let oc = Tokens.spec_outcome admin !pre o in
+                let oc = Tokens.spec_outcome !cur_admin !pre o in
                 let want_op = outcome_s inner oc in
                 let want = want_op ^ "+" ^ (match oc with
                     | Tokens.ODenied -> "-"
@@ -189,13 +233,13 @@ let spec input obs =
               | None, _ -> raise (Fail "malformed-observable bad op"))
            | _, (None, _) -> if res <> "BAD-OP" then raise (Fail "malformed-observable bad op")
            | _, (Some o, b) ->
-             let want = outcome_s p (Tokens.spec_outcome admin !pre o) in
+             let want = outcome_s p (Tokens.spec_outcome !cur_admin !pre o) in
              if res = "c:DUP" then raise (Fail (Printf.sprintf "token-not-distinct op %d" i));
              if res = "c:SHAPE" then raise (Fail (Printf.sprintf "token-shape op %d" i));
              (* the authenticate that overlaps the revoke may answer either way *)
              let res_ok = match p, o with
                | PRace _, Tokens.Race t ->
-                 res = want || res = "race:" ^ role_s (Tokens.spec_role admin (!pre @ [Tokens.Revoke (admin, t)]) t)
+                 res = want || res = "race:" ^ role_s (Tokens.spec_role !cur_admin (!pre @ [Tokens.Revoke (!cur_admin, t)]) t)
                | _ -> res = want in
              if (match p with PCf _ | PRf _ -> res = "c:ok" || res = "r:ok" | _ -> false) then
                raise (Fail (Printf.sprintf "failed-op-reported-success op %d want %s got %s" i want res));
@@ -212,13 +256,15 @@ let spec input obs =
              (match res, b with "c:ok", Some (n, v, k) -> do_bind env n v k | _ -> ());
              pre := !pre @ [o]);
           let entries = split_on ',' vec in
-          let want_entries = Stdlib.List.map (fun n -> n, role_s (Tokens.spec_role admin !pre (resolve env n))) names
-                             @ ["adm", role_s (Tokens.spec_role admin !pre admin)] in
+          let want_entries = Stdlib.List.map (fun n -> n, role_s (Tokens.spec_role !cur_admin !pre (resolve env n))) names
+                             @ (if has_frr ops then ["raced*", "N"] else [])
+                             @ ["adm", role_s (Tokens.spec_role !cur_admin !pre !cur_admin)] in
           if Stdlib.List.length entries <> Stdlib.List.length want_entries then raise (Fail "malformed-observable vector length");
           Stdlib.List.iter2 (fun e (n, w) ->
               match split_on '=' e with
               | [n'; g] when n' = n ->
-                if g <> w then raise (Fail (Printf.sprintf "%s after op %d token %s want %s got %s" (auth_class w g) i n w g))
+                if g <> w then raise (Fail (Printf.sprintf "%s after op %d token %s want %s got %s"
+                                              (if n = "raced*" then "revoked-token-authenticates-after-race" else auth_class w g) i n w g))
               | _ -> raise (Fail "malformed-observable vector entry")) entries want_entries)
         (Stdlib.List.combine ops results);
       "OK"
